@@ -323,6 +323,38 @@ VOP(rt_step)
 	ClearClients();
 }
 
+// rt_reload order=<z.z.z>: run Zone::OnAllConfigLoaded again for every zone in the given activation order
+// (top-down, bottom-up, random), starting from zones that have not resolved anything yet, then report
+// GetParent() and GetAllParentsRaw() of every zone.  Later rt_step ops route over the chains built here.
+VOP(rt_reload)
+{
+	std::vector<int> order = IdList(a.str("order", "-"));
+	for (int z : l_ZoneIds) {
+		Zone::Ptr zone = Zone::GetByName(ZName(z));
+		zone->m_Parent = nullptr;
+		zone->m_AllParents.clear();
+	}
+	for (const Endpoint::Ptr& ep : ConfigType::GetObjectsByType<Endpoint>()) ep->m_Zone = nullptr;
+	bool failed = false;
+	for (int z : order) {
+		Zone::Ptr zone = Zone::GetByName(ZName(z));
+		if (!zone) throw std::runtime_error("unknown zone in order");
+		try { zone->OnAllConfigLoaded(); } catch (const std::exception&) { failed = true; break; }
+	}
+	if (failed) { Out("rtl error"); return; }
+	std::ostringstream o;
+	o << "rtl";
+	for (int z : order) {
+		Zone::Ptr zone = Zone::GetByName(ZName(z));
+		Zone::Ptr par = zone->GetParent();
+		o << " z" << z << "=" << (par ? std::to_string(ZId(par->GetName())) : std::string("-")) << ":";
+		std::vector<Zone::Ptr> all = zone->GetAllParentsRaw();
+		if (all.empty()) o << "-";
+		for (size_t i = 0; i < all.size(); i++) o << (i ? "." : "") << ZId(all[i]->GetName());
+	}
+	Out(o.str());
+}
+
 static struct RtCaseEnd {
 	RtCaseEnd() { RegisterCaseEnd([]() { Cleanup(); }); }
 } l_RtCaseEnd;
